@@ -28,8 +28,14 @@ class _FakeSocket:
         pass
 
 
-def run_search(gen, arrivals, remote_host=None):
+_ERRS = [ConnectionRefusedError(111, "Connection refused"), OSError(113, "No route to host"), PermissionError(1, "Operation not permitted"),
+         OSError(101, "Network is unreachable")]
+
+
+def run_search(gen, arrivals, remote_host=None, errors=()):
     """arrivals: [(tick, datagram bytes)] relative to the start of the search.
+    errors: ticks at which the socket reports an error to the protocol (`error_received`: an ICMP "port unreachable" for an earlier request, a
+    refused send, ...) - what asyncio's datagram transport does on an OSError of sendto / recvfrom; the search is to carry on unaffected.
     -> dict(sent=[ticks], ret=tick, responses=[(id,name,serial,host)], dest=[addr], unhandled=n)"""
     import pyairtouch.comms.discovery as D
     mod = __import__("pyairtouch.at%d.comms.discovery" % gen, fromlist=["x"])
@@ -54,6 +60,16 @@ def run_search(gen, arrivals, remote_host=None):
                         tr.proto.datagram_received(data, ("192.168.1.5", mod.PORT))
                     except Exception as e:  # noqa: BLE001  (asyncio reports it through the loop's exception handler)
                         loop.call_exception_handler({"message": "datagram_received failed", "exception": e})
+        def report(k):
+            if net.udp:
+                tr = net.udp[-1]
+                if not tr.closed:
+                    try:
+                        tr.proto.error_received(_ERRS[k % len(_ERRS)])
+                    except Exception as e:  # noqa: BLE001
+                        loop.call_exception_handler({"message": "error_received failed", "exception": e})
+        for k, t in enumerate(errors):
+            loop.call_at(t0 + t * TICK, report, k + t)
         for t, data in arrivals:
             loop.call_at(t0 + t * TICK, deliver, data)
         res = await task
